@@ -47,7 +47,8 @@ structure DState where
   statsd : Statsd.St := none
 
 def step (st : DState) (line : String) : DState × String :=
-  if line.startsWith "#" then ({}, line) else
+  -- a new case starts from fresh states; only the process-wide global recorder of `debug` (C19) lives on
+  if line.startsWith "#" then ({ debug := Debugging.carry st.debug }, line) else
   match line.splitOn " " with
   | "c08" :: args => (st, (C08.handle args).getD "bad-op")
   | "key" :: args => (st, (Key.handle args).getD "bad-op")
